@@ -30,6 +30,9 @@ def preserving(t, param):
         if t[1] in (("Index", "index"), ("IndexMut", "index_mut")) and len(t[2]) == 2 and \
                 t[2][1][0] == "agg" and str(t[2][1][1]).startswith("RangeFull"):
             return preserving(t[2][0], param)  # `&item[..]`: the whole value as a slice
+        if t[1][1] == "drain" and t[1][0] in ("Vec", "VecDeque", "String") and len(t[2]) == 2 and \
+                t[2][1][0] == "agg" and str(t[2][1][1]).startswith("RangeFull"):
+            return preserving(t[2][0], param)  # `item.drain(..)`: every element, in order, moved out
         if t[1] == ("Iterator", "map") and len(t[2]) == 2:
             f = t[2][1]
             if not preserving(t[2][0], param):
